@@ -282,16 +282,70 @@ def check_measures(ctx, db):
     ctx.check(ok, 'R-SHAPE', 'Polygon::perimeter/closed', p.loc(), 'count-1 consecutive edges plus the closing edge from the last to the first vertex')
 
 
+def check_translation_invariance(ctx, db):
+    """Affine typing of the measures: vertices are POSITIONS, differences of vertices are DISPLACEMENTS; cross products,
+    inner products and lengths may only be taken of displacements. A shoelace sum over absolute positions is
+    mathematically the same area but cancels catastrophically far from the origin (the orientation test of small
+    polygons at large coordinates flips), so the measures must be translation invariant by construction."""
+    n = 0
+    for qn in ('gdstk::Polygon::area', 'gdstk::Polygon::signed_area', 'gdstk::Polygon::perimeter'):
+        f = db.fn(qn)
+        ctx.touch(f)
+        env = {}
+        bad = []
+
+        def kind(e):
+            e = _strip_casts(e)
+            if e is None:
+                return None
+            while e.k in ('ParenExpr', 'MaterializeTemporaryExpr', 'CXXBindTemporaryExpr', 'CXXConstructExpr', 'ExprWithCleanups') and len([c for c in e.c if c is not None]) == 1:
+                e = _strip_casts([c for c in e.c if c is not None][0])
+            if e.k == 'UnaryOperator' and e.op == '*':
+                return 'P'        # dereferenced cursor into the vertex array
+            if e.k in ('ArraySubscriptExpr',) or (e.k == 'CXXOperatorCallExpr' and e.op == '[]'):
+                return 'P'
+            if e.k == 'DeclRefExpr':
+                return env.get(e.n)
+            if e.k == 'CXXOperatorCallExpr' and e.op in ('-', '+') and len(e.args) == 2:
+                a, b = kind(e.args[0]), kind(e.args[1])
+                if e.op == '-':
+                    return {('P', 'P'): 'V', ('P', 'V'): 'P', ('V', 'V'): 'V'}.get((a, b))
+                return {('P', 'V'): 'P', ('V', 'P'): 'P', ('V', 'V'): 'V'}.get((a, b))
+            if e.k == 'CXXOperatorCallExpr' and e.op == '*' and len(e.args) == 2:
+                ks = [kind(a_) for a_ in e.args]
+                return 'V' if 'V' in ks and 'P' not in ks else None
+            return None
+        for x in f.walk():
+            if x.k == 'VarDecl' and x.child('init') is not None and 'Vec2' in (x.t or '') and '*' not in (x.t or ''):
+                env[x.n] = kind(x.child('init'))
+            elif is_assign(x) and x.op == '=':
+                l = _strip_casts(x.args[0] if x.k == 'CXXOperatorCallExpr' else x.child('lhs'))
+                if l.k == 'DeclRefExpr' and l.n in env:
+                    k_ = kind(x.args[1] if x.k == 'CXXOperatorCallExpr' else x.child('rhs'))
+                    if env[l.n] != k_:
+                        env[l.n] = k_ if env[l.n] is None else (env[l.n] if k_ == env[l.n] else 'mixed')
+            elif x.k == 'CXXMemberCallExpr' and (x.callee or '').split('::')[-1] in ('cross', 'inner', 'length', 'length_sq'):
+                ops = [x.child('obj')] + list(x.args)
+                ks = [kind(o) for o in ops]
+                n += 1
+                if any(k_ != 'V' for k_ in ks):
+                    bad.append((x, ks))
+        ctx.check(not bad and n > 0, 'R-INVARIANT', '%s/displacements-only' % qn.replace('gdstk::', ''), f.loc(), 'every cross product / length is taken of vertex differences (translation invariant, no cancellation at large coordinates)',
+                  '; '.join('%s: `%s` operates on %s' % (x.loc(), norm(x.text())[:50], ['an absolute position' if k_ == 'P' else ('a displacement' if k_ == 'V' else 'an unclassified value') for k_ in ks]) for x, ks in bad[:2]))
+    ctx.require('R-INVARIANT products and lengths', n, 3)
+
+
 def run(ctx):
     db = ctx.db
     check_prefilters(ctx, db)
     check_contain(ctx, db)
     check_groups(ctx, db)
     check_measures(ctx, db)
+    check_translation_invariance(ctx, db)
 
 
 MANIFEST = dict(
-    text='Decides, by exhaustive enumeration of weak orderings (a finite abstract domain that is exact for comparison-only predicates): soundness of the five bounding-box pre-filters; the 9-case table of Polygon::contain over (p0.x, p1.x) against x (only strictly-left edges may be skipped, right edges counted, all others go through the determinant test that reports on-edge points), the half-open crossing rule, and soundness/completeness of the vertex/horizontal-edge boundary test over 81 orderings; plus: group functions reach a positive verdict only through Polygon::contain, visit all points and polygons, and reset a per-point verdict at the start of the iteration of every point; area/signed_area/perimeter return 0 below three vertices before reading vertices, area and signed_area share one shoelace prologue+loop, the repetition factor applies to area and perimeter only, the perimeter is closed. Accumulation of the winding number over whole polygons and floating-point sums are not decided.',
+    text='Decides, by exhaustive enumeration of weak orderings (a finite abstract domain that is exact for comparison-only predicates): soundness of the five bounding-box pre-filters; the 9-case table of Polygon::contain over (p0.x, p1.x) against x (only strictly-left edges may be skipped, right edges counted, all others go through the determinant test that reports on-edge points), the half-open crossing rule, and soundness/completeness of the vertex/horizontal-edge boundary test over 81 orderings; plus: group functions reach a positive verdict only through Polygon::contain, visit all points and polygons, and reset a per-point verdict at the start of the iteration of every point; area/signed_area/perimeter return 0 below three vertices before reading vertices, area and signed_area share one shoelace prologue+loop, the repetition factor applies to area and perimeter only, the perimeter is closed, and all three measures take cross products and lengths of vertex differences only (affine typing: translation invariant by construction). Accumulation of the winding number over whole polygons and floating-point sums are not decided.',
     note='Trusted: clang front end, gx, sa rules. Conditions are interpreted only as Boolean combinations of comparisons; anything else raises analysis-broken.',
     technique='predicate extraction + exhaustive weak-order enumeration (finite abstract domain) + decision-table extraction + clone/shape rules',
     design='§4 C14')
